@@ -131,7 +131,9 @@ def program(draw, big=False):
             if j < len(out):
                 new_out.append(out[j])
         out = new_out
-    return out
+    # CPU: byte addressed (msp430), word addressed (avr8: labels are byte address / 2) or ELFCLASS64 (arm64)
+    cpu = draw(st.sampled_from([("msp430", 1), ("msp430", 1), ("avr8", 2), ("arm64", 1)]))
+    return [("cpu",) + cpu] + out
 
 
 LOCAL_NAMES = ["a", "lp", "loc3", "m" * 30, "n" * 61, "p" * 100, "q" * 150, "r" * 201]
@@ -172,7 +174,11 @@ def program_scopes(draw):
 
 def resolve(items):
     """returns (image dict, symbols {(name, scope): addr}, words [(addr, name, value)], info)"""
-    # pass A: addresses
+    # pass A: addresses (bytes); a label's value is the address in the CPU's units
+    bpa = 1
+    for it in items:
+        if it[0] == "cpu":
+            bpa = it[2]
     addr = 0
     scope = 0
     cur = 0
@@ -182,9 +188,9 @@ def resolve(items):
     for it in items:
         k = it[0]
         if k == "label":
-            defs[(it[1], cur)] = addr
+            defs[(it[1], cur)] = addr // bpa
         elif k == "func":
-            defs[(it[1], 0)] = addr
+            defs[(it[1], 0)] = addr // bpa
             scope += 1
             cur = scope
         elif k == "scope":
@@ -195,9 +201,10 @@ def resolve(items):
         elif k == "ref":
             addr += 4
         elif k == "pad":
-            addr += it[1]
+            addr += it[1] * bpa
         elif k == "org":
-            addr = it[1] if it[1] > addr else addr     # rendered as .org only when it moves forward
+            o = it[1] - it[1] % bpa
+            addr = o if o > addr else addr     # rendered as .org only when it moves forward
     # pass B: values
     img = {}
     words = []
@@ -231,7 +238,7 @@ def resolve(items):
                 if any(n == nm and s != 0 for (n, s) in defs):
                     info["shadow_out"] = True
             if not (nm in sets and (nm, 0) not in defs):
-                if v > addr:
+                if v * bpa > addr:
                     info["fwd"] = True
                 else:
                     info["bwd"] = True
@@ -240,11 +247,12 @@ def resolve(items):
             words.append((addr, nm, v))
             addr += 4
         elif k == "pad":
-            for i in range(it[1]):
+            for i in range(it[1] * bpa):
                 img[addr + i] = 0xee
-            addr += it[1]
+            addr += it[1] * bpa
         elif k == "org":
-            addr = it[1] if it[1] > addr else addr
+            o = it[1] - it[1] % bpa
+            addr = o if o > addr else addr
     syms = dict(defs)
     for n, v in sets.items():
         syms[(n, 0)] = v
@@ -252,7 +260,11 @@ def resolve(items):
 
 
 def render(items):
-    lines = [".msp430"]
+    cpu, bpa = "msp430", 1
+    for it in items:
+        if it[0] == "cpu":
+            cpu, bpa = it[1], it[2]
+    lines = [".%s" % cpu]
     addr = 0
     for it in items:
         k = it[0]
@@ -262,12 +274,13 @@ def render(items):
             lines.append("  .dc32 %s" % it[1])
             addr += 4
         elif k == "pad":
-            lines.append("  .data_fill 0xee, %d" % it[1])
-            addr += it[1]
+            lines.append("  .data_fill 0xee, %d" % (it[1] * bpa))
+            addr += it[1] * bpa
         elif k == "org":
-            if it[1] > addr:
-                lines.append(".org 0x%x" % it[1])
-                addr = it[1]
+            o = it[1] - it[1] % bpa
+            if o > addr:
+                lines.append(".org 0x%x" % (o // bpa))
+                addr = o
         elif k == "scope":
             lines.append(".scope")
         elif k == "ends":
@@ -493,6 +506,9 @@ def replay(payload):
             return False, "passes"
         # re-derive the abstract items from the source text (one statement per line, generated syntax only)
         items = []
+        first = payload["full_src"].split("\n")[0].strip().lstrip(".")
+        bpa = {"avr8": 2}.get(first, 1)
+        items.append(("cpu", first, bpa))
         for line in payload["full_src"].split("\n")[1:]:
             t = line.strip()
             if not t:
@@ -502,9 +518,9 @@ def replay(payload):
             elif t.startswith(".dc32 "):
                 items.append(("ref", t[6:]))
             elif t.startswith(".data_fill"):
-                items.append(("pad", int(t.split(",")[1])))
+                items.append(("pad", int(t.split(",")[1]) // bpa))
             elif t.startswith(".org "):
-                items.append(("org", int(t[5:], 16)))
+                items.append(("org", int(t[5:], 16) * bpa))
             elif t == ".scope":
                 items.append(("scope",))
             elif t == ".ends":
